@@ -16,8 +16,13 @@ theorem gen_pins :
     Gen.Paths.cleanPatterns =
       [("search", "[<>:\"/\\\\|?* .\\x00-\\x1f]"), ("match", "(CON|PRN|AUX|NUL|COM[1-9]|LPT[1-9])"),
        ("sub", "[<>:\"/\\\\|?*\\x00-\\x1f]"), ("sub", "[ .]$"), ("sub", "[ .]$")]
-    ∧ Gen.Paths.suffixFormat = "_{}" ∧ Gen.Paths.pathMaxLength = 230 ∧ Gen.Paths.extDivisor = 2 :=
-  ⟨rfl, rfl, rfl, rfl⟩
+    ∧ Gen.Paths.suffixFormat = "_{}" ∧ Gen.Paths.pathMaxLength = 230 ∧ Gen.Paths.extDivisor = 2
+    -- the uniqueness loop asks about exactly the path that is returned (the model's `isfile` is a
+    -- predicate on the returned string `join2 path candidate`)
+    ∧ Gen.Paths.pathBinding = "path, fname = os.path.split(filename)"
+    ∧ Gen.Paths.uniqueProbe = "os.path.isfile(os.path.join(path, fname))"
+    ∧ Gen.Paths.returnExpr = "os.path.join(path, fname)" :=
+  ⟨rfl, rfl, rfl, rfl, rfl, rfl, rfl⟩
 
 /-- the generated character classes contain everything the specification forbids, and the class the
     replacement string is checked against contains both other classes -/
